@@ -139,6 +139,9 @@ func (z *byz) ops() []ref.WOp {
 			ops = append(ops, ref.WOp{Kind: "val", Val: ref.WTerm{K: ref.KInt, I: 1}})
 		}
 	case 3: // empty
+	case 4: // a string operator applied to whatever strings the block carries, e.g. matches() with a malformed pattern
+		code := []uint64{8, 8, 6, 7, 5, 9}[r.Intn(6)]
+		ops = append(ops, ref.WOp{Kind: "val", Val: ref.WTerm{K: ref.KStr, U: z.symIndex()}}, ref.WOp{Kind: "val", Val: ref.WTerm{K: ref.KStr, U: z.symIndex()}}, ref.WOp{Kind: "bin", Code: code})
 	default: // random well-shaped-looking sequences over arbitrary operand types
 		n := 1 + r.Intn(4)
 		depth := 0
@@ -176,7 +179,7 @@ func (z *byz) rule(names []uint64) ref.WRule {
 func (z *byz) block() *ref.WBlock {
 	r := z.r
 	b := &ref.WBlock{Version: 3, HasVersion: true, HasContext: r.Intn(2) == 0, Context: "ctx"}
-	pool := []string{"a", "b", "right", "x", "", "file1", "read", "p", "q", "éà", "^(a+)+$", "["}
+	pool := []string{"a", "b", "right", "x", "", "file1", "read", "p", "q", "éà", "^(a+)+$", "[", "(", "*a", "a{2,1}", "[", "\\"}
 	for i := r.Intn(6); i > 0; i-- {
 		z.syms = append(z.syms, pool[r.Intn(len(pool))])
 	}
@@ -292,6 +295,10 @@ func echo(r *rand.Rand, g *gen.G, names []string) ref.Authz {
 			x, y := ref.Leaf(v(0)), ref.Leaf(v(r.Intn(ar)))
 			e := ref.Bin(op, x, y)
 			switch op {
+			case "regex":
+				if r.Intn(2) == 0 { // a malformed pattern, presented on every request
+					e = ref.Bin("regex", x, ref.Leaf(ref.Str([]string{"[", "(", "*a", "a{2,1}"}[r.Intn(4)])))
+				}
 			case "union", "inter":
 				e = ref.Bin(">=", ref.Un("len", e), ref.Leaf(ref.Int(0)))
 			case "+", "/", "*":
@@ -320,6 +327,9 @@ func genC10(r *rand.Rand, run int, tier string) *vm.Plan {
 	root := ed25519.NewKeyFromSeed(seed)
 	var blobs []int
 	names := []string{"a", "b", "right", "x", "file1", "read", "p", "q", "éà", "resource", "operation"}
+	for _, sg := range g.Sigs {
+		names = append(names, sg.Name)
+	}
 	switch r.Intn(4) {
 	case 0: // byte-level corruption of honest tokens in transit / at rest
 		t := h.issue()
